@@ -51,7 +51,7 @@ enum { CL_START_BLOCKED, CL_STOP_BLOCKED, CL_UNBLOCK_PENDING, CL_RESUMED, CL_STA
        CL_FREE_BLOCKERS, CL_FREE_STARTED, CL_FIRED, CL_FIRE_INACTIVE,
        CL_CB_ACTION, CL_CB_STOP, CL_CB_BALLOC, CL_CB_BFREE, CL_CB_FREE, CL_CB_RELEASE, CL_TOP_RELEASE,
        CL_LIFE2, CL_RECYCLED, CL_THREE, CL_NONLIFO, CL_NO_OWNER,
-       CL_T_IDLER, CL_T_TIMER, CL_T_FD_READ, CL_T_FD_WRITE, CL_T_SIGNAL, CL_EXPIRED, CL_SKIPPED_DOMAIN, CL_INTERLOPER };
+       CL_T_IDLER, CL_T_TIMER, CL_T_FD_READ, CL_T_FD_WRITE, CL_T_SIGNAL, CL_EXPIRED, CL_SKIPPED_DOMAIN, CL_INTERLOPER, CL_BALLOC_REFUSED };
 static const char *const class_names[] = {
     "start_while_blocked", "stop_while_blocked", "unblocked_after_pending_change", "resumed_on_unblock",
     "stays_stopped_on_unblock", "restart_unblocked", "restart_blocked", "set_status_while_active",
@@ -60,7 +60,7 @@ static const char *const class_names[] = {
     "cb_free_own_pump", "cb_owner_release", "toplevel_owner_release", "second_lifetime", "pool_recycled_pump",
     "three_blockers", "blocker_free_non_lifo", "no_owner_refcount", "type_idler", "type_timer",
     "type_fd_read", "type_fd_write", "type_signal", "timer_expired_state", "restart_outside_domain_skipped",
-    "action_by_another_watcher_while_event_pending", NULL };
+    "action_by_another_watcher_while_event_pending", "blocker_allocation_refused", NULL };
 
 struct c13;
 struct c13_blk { struct c13 *c; struct upump_blocker *b; bool out; int notified; unsigned seq; };
@@ -268,17 +268,32 @@ static void c13_op_set_status(struct c13 *c, bool v)
     c13_after(c, K_SET_STATUS, "set_status", what, was);
 }
 
-static void c13_op_balloc(struct c13 *c)
+/* `refuse`: the allocation of the blocker structure is refused (engine/faultmalloc.h, mock executor only; a pooled structure
+ * may be recycled instead, in which case nothing is refused): a blocker that could not be allocated blocks nothing, the pump
+ * stays exactly as it was */
+static void c13_op_balloc_ex(struct c13 *c, bool refuse)
 {
     int i;
     for (i = 0; i < C13_MAXB; i++) if (!c->blk[i].out) break;
     if (i == C13_MAXB) { R("%sblocker_alloc skipped (3 outstanding)\n", c->in_cb ? "        cb: " : "  "); return; }
     bool was = ACTIVE(c);
-    if (was) c->exp_stop++;
     struct c13_blk *s = &c->blk[i];
     s->c = c; s->notified = 0; s->seq = ++c->blk_seq;
+#ifdef C13_FAULTS
+    if (refuse) vp_fault_arm(1);
+#endif
     struct upump_blocker *b = upump_blocker_alloc(c->pump, c13_blocker_cb, s);
+#ifdef C13_FAULTS
+    bool refused = refuse && vp_fault_disarm() > 0;
+    if (b == NULL && refused) {
+        CLS(CL_BALLOC_REFUSED);
+        c->hash = vp_hash_mix(c->hash, 0xfa);
+        c13_after(c, K_BALLOC, "blocker_alloc_refused", "blocker_alloc -> NULL (allocation refused)", was);
+        return;
+    }
+#endif
     if (b == NULL) { if (!c->ret) c->ret = vp_internal(c->rep, "upump_blocker_alloc returned NULL"); return; }
+    if (was) c->exp_stop++;
     s->b = b; s->out = true;
     c->nb++;
     if (c->nb == C13_MAXB) CLS(CL_THREE);
@@ -287,6 +302,8 @@ static void c13_op_balloc(struct c13 *c)
     snprintf(what, sizeof what, "blocker_alloc=b%d", i);
     c13_after(c, K_BALLOC, "blocker_alloc", what, was);
 }
+
+static void c13_op_balloc(struct c13 *c) { c13_op_balloc_ex(c, false); }
 
 static void c13_op_bfree(struct c13 *c, unsigned sel)
 {
@@ -490,7 +507,7 @@ static void c13_history(struct c13 *c, int maxops)
         case 0: c13_op_get_status(c); break;
         case 1: case 2: c13_op_start(c); break;
         case 3: case 4: c13_op_stop(c); break;
-        case 5: case 6: c13_op_balloc(c); break;
+        case 5: case 6: c13_op_balloc_ex(c, (b / 16) % 8 == 7); break;
         case 7: case 8: c13_op_bfree(c, b / 16); break;
         case 9: case 10: case 11: c13_decode_fire(c, b); be_fire(c); c->nscript = 0; break;
         case 12: c13_op_set_status(c, (b / 16) & 1); break;
